@@ -157,6 +157,7 @@ impl RepRun {
                 None => wsl.push_str(" -"),
             }
         }
+        self.obs.lock().unwrap().probe = true;
         let nops = block_on(self.replica.num_local_operations()).unwrap();
         let nundo = block_on(self.replica.num_undo_points()).unwrap();
         let uns = self.obs.lock().unwrap().unsynced.clone();
